@@ -347,6 +347,11 @@ func c07Histories(thorough bool) [][]L {
 		cat([]L{mps(1)}, order(1, 0), []L{mpf(1), c(2, "del"), f(2, 0), c(3, "add"), f(3, 0), p(1)}),
 		cat([]L{mps(1), mpc(1, nch-1), mpa(1), mps(1)}, order(1, 1), []L{mpf(1), c(2, "mod"), f(2, 0)}),
 		cat([]L{c(1, "add"), f(1, 0), c(2, "add"), f(2, 0), mps(5)}, order(5, 2), []L{mpf(5), c(6, "del"), f(6, 0)}),
+		// a completed restore followed by an aborted restore at a higher version (whatever the first
+		// restore's cleanup left behind must not be acted upon by the second one's), then normal versions
+		// (the aborted restore targets the very next version, so that the versions committed afterwards read at or above it)
+		cat([]L{mps(1)}, order(1, 0), []L{mpf(1), mps(2), mpc(2, 0), mpa(2), c(2, "add"), f(2, 0), c(3, "mod"), f(3, 0)}),
+		cat([]L{c(1, "add"), f(1, 0), mps(3)}, order(3, 1), []L{mpf(3), mps(4), mpc(4, nch-1), mpc(4, 0), mpa(4), c(4, "mod"), f(4, 0), p(1)}),
 	}
 	if thorough {
 		hs = append(hs,
@@ -609,7 +614,7 @@ func runC07(r *ev.Run) {
 	r.Set("distinct_nontrivial", int(nontrivial.Load()))
 	r.Set("histories", len(hs))
 	r.Set("operations_interrupted", len(hps))
-	r.Set("rule", "for each curated history (competing roots, finalize of a non-first candidate, IO roots, unchanged roots, prune with lag, checkpoint restores with abort/restart and forward jump), each letter and each durable-write boundary k of that letter (counted by a dry run through hooks in a patched badger copy: after every WriteBatch.Flush and Txn.Commit): a child process replays the prefix on an on-disk database, runs the letter and exits abruptly right after durable write k; the parent reopens the database, checks every previously finalized version (full read-back), that no unfinished restore is visible, retries the letter, compares with the uninterrupted reference and runs the rest of the history with read-back after each letter; double-crash phase: for every such case and every durable-write boundary k2 of reopening + retrying, a second child is killed there and the parent recovers again with the same oracle. distinct_nontrivial = cases in which the child actually died at the selected boundary")
+	r.Set("rule", "for each curated history (competing roots, finalize of a non-first candidate, IO roots, unchanged roots, prune with lag, checkpoint restores with abort/restart and forward jump, a completed restore followed by an aborted one at a higher version), each letter and each durable-write boundary k of that letter (counted by a dry run through hooks in a patched badger copy: after every WriteBatch.Flush and Txn.Commit): a child process replays the prefix on an on-disk database, runs the letter and exits abruptly right after durable write k; the parent reopens the database, checks every previously finalized version (full read-back), that no unfinished restore is visible, retries the letter, compares with the uninterrupted reference and runs the rest of the history with read-back after each letter; double-crash phase: for every such case and every durable-write boundary k2 of reopening + retrying, a second child is killed there and the parent recovers again with the same oracle. distinct_nontrivial = cases in which the child actually died at the selected boundary")
 	r.Assume("process death, not power loss: everything written before the exit is kept (NoFsync, page cache)", "crash points are durable-write boundaries as seen by badger (WriteBatch.Flush, Txn.Commit); a batch is assumed to be atomic", "at most two crashes per case: the second one inside reopening + retrying the interrupted operation")
 	r.Finish()
 }
